@@ -251,3 +251,61 @@ def fidelity(args):
     print('fidelity: real multiprocessing.Pool vs SimPool on {} arrays: '
           '{}'.format(len(res[0]), 'bitwise equal' if same else 'DIFFERENT'))
     return 0 if same else 2
+
+
+def model(args):
+    """The reference models against an even simpler formulation of
+    themselves: the worklist closure of RefMesh / RefQuad must equal the
+    naive fixpoint 'split, then while some edge-neighbours differ by >= 2
+    levels split the coarser one' recomputed from scratch after every
+    bisection, and the result must be a tiling."""
+    import random
+    from .refmesh import RefMesh, is_tiling
+    from .refquad import RefQuad, is_quad_tiling
+    rng = random.Random(args.seed)
+    n = args.runs or 300
+    bad = 0
+    for k in range(n):
+        n_t, n_x, glued = rng.choice([1, 2, 3]), rng.choice([1, 2, 3]), (
+            rng.random() < 0.5)
+        a = RefMesh(n_t, n_x, glued)
+        for _ in range(rng.randint(1, 25)):
+            lf = rng.choice(sorted(a.leaves))
+            ax = rng.randint(0, 1)
+            b = a.copy()
+            # naive: split, then repair by scanning all pairs until stable
+            b._split(lf, ax)
+            while True:
+                irr = [(x, y) for (x, y) in b.irregularities()
+                       if abs(b.levels(x)[ax] - b.levels(y)[ax]) >= 2]
+                if not irr:
+                    break
+                x, y = irr[0]
+                coarse = x if b.levels(x)[ax] < b.levels(y)[ax] else y
+                b._split(coarse, ax)
+            a.bisect(lf, ax)
+            if a.leaves != b.leaves or a.irregularities() or not is_tiling(
+                    list(a.leaves), n_t, n_x)[0]:
+                bad += 1
+                break
+    for k in range(n):
+        roots = rng.choice([[(0, 0)], [(0, -1), (0, 0), (-1, 0)]])
+        a = RefQuad(roots)
+        for _ in range(rng.randint(1, 25)):
+            lf = rng.choice(sorted(a.leaves))
+            b = a.copy()
+            b._split(lf)
+            while True:
+                irr = b.unbalanced()
+                if not irr:
+                    break
+                b._split(irr[0][1])
+            a.refine(lf)
+            if a.leaves != b.leaves or a.unbalanced() or not is_quad_tiling(
+                    list(a.leaves), roots)[0]:
+                bad += 1
+                break
+    print('model self-test: {} mesh + {} quadtree histories, {} '
+          'disagreements between worklist closure and naive fixpoint'.format(
+              n, n, bad))
+    return 0 if bad == 0 else 2
